@@ -340,16 +340,96 @@ def attr_stored_anywhere(prog, name):
     return name in _stored_cache.get(id(prog), set())
 
 
-def swap_toggle(node):
-    """`self.X = self.X.swapaxes(i, j)` -> (X, (i, j)) else None"""
-    if isinstance(node, ast.Assign) and len(node.targets) == 1 and isinstance(node.targets[0], ast.Attribute) \
-            and norm(node.targets[0].value) == 'self' and isinstance(node.value, ast.Call) \
-            and isinstance(node.value.func, ast.Attribute) and node.value.func.attr == 'swapaxes' \
-            and norm(node.value.func.value) == norm(node.targets[0]):
-        args = [a.value if isinstance(a, ast.Constant) else None for a in node.value.args]
-        if len(args) == 2 and None not in args:
-            return node.targets[0].attr, tuple(sorted(args))
+def swap_toggle(node, prog=None, f=None):
+    """a layout toggle `self.X = <axis permutation of self.X>` -> (X, op) with op = ('swap', i, j) | ('perm', tuple) | ('T',), else None.
+    Recognised permutations: .swapaxes(i, j), np.swapaxes(self.X, i, j), .transpose(perm) / .transpose(*perm), np.transpose(self.X,
+    perm), .T, np.moveaxis(self.X, a, b) with literal arguments or module-level literal tuples."""
+    if not (isinstance(node, ast.Assign) and len(node.targets) == 1 and isinstance(node.targets[0], ast.Attribute) and norm(node.targets[0].value) == 'self'):
+        return None
+    tgt = norm(node.targets[0])
+    v = node.value
+
+    def lit(e):
+        c = const_lit(e)
+        if c is None and isinstance(e, ast.Name) and prog is not None and f is not None:
+            n_ = f.mod.assigns.get(e.id)
+            c = const_lit(n_) if n_ is not None else None
+        return c
+
+    def const_lit(e):
+        try:
+            return ast.literal_eval(e)
+        except Exception:
+            return None
+    if isinstance(v, ast.Attribute) and v.attr == 'T' and norm(v.value) == tgt:
+        return node.targets[0].attr, ('T',)
+    if not isinstance(v, ast.Call) or not isinstance(v.func, ast.Attribute):
+        return None
+    name = v.func.attr
+    if norm(v.func.value) == tgt:
+        args = v.args
+    elif v.args and norm(v.args[0]) == tgt and norm(v.func.value) in ('_np', 'np', 'numpy'):
+        args = v.args[1:]
+    else:
+        return None
+    vals = [lit(a) for a in args]
+    if name == 'swapaxes' and len(vals) == 2 and all(isinstance(x, int) for x in vals):
+        return node.targets[0].attr, ('swap',) + tuple(sorted(vals))
+    if name == 'transpose':
+        if not vals:
+            return node.targets[0].attr, ('T',)
+        p_ = vals[0] if len(vals) == 1 and isinstance(vals[0], (tuple, list)) else vals
+        if all(isinstance(x, int) for x in p_) and sorted(p_) == list(range(len(p_))):
+            return node.targets[0].attr, ('perm', tuple(p_))
+    if name == 'moveaxis' and len(vals) == 2 and all(isinstance(x, int) and x >= 0 for x in vals):
+        return node.targets[0].attr, ('move', vals[0], vals[1])
     return None
+
+
+def _as_perm(op, n):
+    """numpy convention: result axis k is source axis perm[k]"""
+    if op[0] == 'perm':
+        return list(op[1]) if len(op[1]) == n else None
+    if op[0] == 'T':
+        return list(range(n))[::-1]
+    if op[0] == 'swap':
+        i_, j_ = op[1], op[2]
+        i_, j_ = (i_ if i_ >= 0 else n + i_), (j_ if j_ >= 0 else n + j_)
+        if not (0 <= i_ < n and 0 <= j_ < n):
+            return None
+        p_ = list(range(n))
+        p_[i_], p_[j_] = p_[j_], p_[i_]
+        return p_
+    if op[0] == 'move':
+        a_, b_ = op[1], op[2]
+        if not (a_ < n and b_ < n):
+            return None
+        p_ = [k for k in range(n) if k != a_]
+        p_.insert(b_, a_)
+        return p_
+    return None
+
+
+def push_toggle(stack, op):
+    """cancel `op` against the pending layout changes when their composition is the identity"""
+    if stack and stack[-1] == op and op[0] in ('swap', 'T'):
+        stack.pop()
+        return
+    if stack:
+        ranks = [len(o[1]) for o in (stack[-1], op) if o[0] == 'perm']
+        cand = ranks or [2, 3, 4]
+        res = set()
+        for n in cand:
+            a, b = _as_perm(stack[-1], n), _as_perm(op, n)
+            if a is None or b is None:
+                res.add(None)
+                continue
+            comp = [a[k] for k in b]           # apply a, then b
+            res.add(comp == list(range(n)))
+        if res == {True}:
+            stack.pop()
+            return
+    stack.append(op)
 
 
 def d5(ctx, prog, cls, entries, acc, count, guard, extra_protected=(), rule='C01-D5'):
@@ -431,13 +511,9 @@ def d5(ctx, prog, cls, entries, acc, count, guard, extra_protected=(), rule='C01
                 f, node = fl.sites[site]
                 if kind == 'store':
                     n_eff += 1
-                    tg = swap_toggle(node) if how == 'bind' else None
+                    tg = swap_toggle(node, prog, f) if how == 'bind' else None
                     if tg:
-                        stack = toggles.setdefault(tg[0], [])
-                        if stack and stack[-1] == tg[1]:
-                            stack.pop()
-                        else:
-                            stack.append(tg[1])
+                        push_toggle(toggles.setdefault(tg[0], []), tg[1])
                         report(ev, 'ok', f'layout toggle of {tg[0]} {tg[1]}')
                         continue
                     if how in ('bind', 'del'):
